@@ -119,6 +119,7 @@ fn ref_extend(m: &MMappings, name: &[u32]) -> Option<MMappings> {
 
 fn ref_contract(m: &MMappings, name: &[u32]) -> Option<MMappings> {
 	let ns = ns_position(m, name)?;
+	if ns == 0 { return None; } // the names of the first namespace are the map keys
 	let mut out = m.clone();
 	for c in &mut out.classes {
 		if let Some(Some(b)) = c.names.get(ns) {
@@ -183,7 +184,21 @@ fn show_answer(a: &Option<MMappings>) -> String {
 #[derive(Default)]
 struct Seen { strings: Vec<S> }
 
-fn through(r: &mut Report, seen: &mut Seen, stream: &str, m: &MMappings, name: &[u32], emit_contract_of_input: bool) {
+/// the column of class names in namespace `ns`, if `got` is exactly `m` with that column replaced
+fn column_of(m: &MMappings, ns: usize, got: &MMappings) -> Option<Vec<Option<S>>> {
+	if got.classes.len() != m.classes.len() { return None; }
+	let mut back = got.clone();
+	let mut col = vec![];
+	for (c, o) in back.classes.iter_mut().zip(&m.classes) {
+		if ns >= c.names.len() || c.names.len() != o.names.len() { return None; }
+		col.push(c.names[ns].clone());
+		c.names[ns] = o.names[ns].clone();
+	}
+	if back == *m { Some(col) } else { None }
+}
+fn g_col(c: &[Option<S>]) -> String { glist(c.iter().map(|o| gopt(o.as_ref().map(|s| gstr(s))))) }
+
+fn through(r: &mut Report, seen: &mut Seen, stream: &str, m: &MMappings, name: &[u32], full: bool) {
 	let name_s: String = match name.iter().map(|&c| char::from_u32(c)).collect::<Option<String>>() { Some(s) => s, None => { r.count("skipped_namespace_not_scalar"); return; } };
 	let out = match run_impl(m, &name_s) {
 		Ok(o) => o,
@@ -200,10 +215,11 @@ fn through(r: &mut Report, seen: &mut Seen, stream: &str, m: &MMappings, name: &
 	match ns { Some(i) => r.count(&format!("target_index:{i}")), None => r.count("target_index:unknown") }
 	r.count(&format!("classes:{}", match m.classes.len() { 0 => "0", 1..=3 => "1-3", 4..=8 => "4-8", _ => "9+" }));
 
-	for d in &out.desync { r.violation(format!("IndexMap key out of sync with node info after the call: {d}"), replay("key desync", m, name, "")); }
+	for d in &out.desync { r.violation(format!("IndexMap key out of sync with node info after the call: {d}"), replay("after extend/contract the map key of a class differs from the first-namespace name stored in its node", m, name, "")); }
 
 	// ---- extend ----
 	let want = ref_extend(m, name);
+	let mut ext_col: Option<Option<Vec<Option<S>>>> = None; // Some(None) = Err
 	match &out.extend {
 		Err(p) => r.violation(format!("extend_inner_class_names panicked: {p}"), replay("panic in extend_inner_class_names", m, name, "")),
 		Ok(got) => {
@@ -216,26 +232,30 @@ fn through(r: &mut Report, seen: &mut Seen, stream: &str, m: &MMappings, name: &
 				};
 				r.violation(what.into(), replay(what, m, name, &format!("implementation:\n{}reference:\n{}", show_answer(got), show_answer(&want))));
 			}
-			r.case(stream, format!("CExtend {} {} {}", g_mappings(m), gstr(name), gres(got.as_ref().map(g_mappings))));
+			ext_col = match (got, ns) { (None, _) => Some(None), (Some(g), Some(ns)) => column_of(m, ns, g).map(Some), (Some(_), None) => None };
+			if full || ext_col.is_none() { r.case(stream, format!("CExtend {} {} {}", g_mappings(m), gstr(name), gres(got.as_ref().map(g_mappings)))); }
 		}
 	}
 	// ---- contract on the input itself ----
 	let wantc = ref_contract(m, name);
+	let mut con_col: Option<Option<Vec<Option<S>>>> = None;
 	match &out.contract {
 		Err(p) => r.violation(format!("contract_inner_class_names panicked: {p}"), replay("panic in contract_inner_class_names", m, name, "")),
 		Ok(got) => {
+			r.count(if got.is_some() { "contract:ok" } else { "contract:err" });
 			if *got != wantc {
-				let what = "contract_inner_class_names result differs from the reference (innermost simple name in the chosen namespace only)";
+				let what = "contract_inner_class_names result differs from the reference (innermost simple name in the chosen non-first namespace only; Err for the first or an unknown namespace)";
 				r.violation(what.into(), replay(what, m, name, &format!("implementation:\n{}reference:\n{}", show_answer(got), show_answer(&wantc))));
 			}
-			if emit_contract_of_input { r.case(stream, format!("CContract {} {} {}", g_mappings(m), gstr(name), gres(got.as_ref().map(g_mappings)))); }
+			con_col = match (got, ns) { (None, _) => Some(None), (Some(g), Some(ns)) => column_of(m, ns, g).map(Some), (Some(_), None) => None };
+			if full || con_col.is_none() { r.case(stream, format!("CContract {} {} {}", g_mappings(m), gstr(name), gres(got.as_ref().map(g_mappings)))); }
 		}
 	}
 	// ---- contract ∘ extend ----
 	let simple = ns.map_or(true, |ns| simple_names(m, ns));
 	let wellformed = wf(m);
-	if let Some(ns) = ns { r.case(stream, format!("CHyp {} {} {} {}", g_mappings(m), ns, gbool(simple), gbool(wellformed))); }
 	r.count(if simple { "hypothesis:simple_names" } else { "hypothesis:simple_names_violated" });
+	let mut conext_col: Option<Option<Vec<Option<S>>>> = None;
 	match (&out.extend, &out.contract_of_extend) {
 		(Ok(Some(e)), Some(Err(p))) => r.violation(format!("contract_inner_class_names panicked on the extended set: {p}"), replay("panic in contract after extend", e, name, "")),
 		(Ok(Some(e)), Some(Ok(back))) => {
@@ -246,17 +266,24 @@ fn through(r: &mut Report, seen: &mut Seen, stream: &str, m: &MMappings, name: &
 				r.violation(what.into(), replay(what, e, name, &format!("implementation:\n{}reference:\n{}", show_answer(back), show_answer(&wantb))));
 			}
 			let same = back.as_ref() == Some(m);
-			r.count(if same { "round_trip:identity" } else if simple { "round_trip:DIFFERS_on_simple_names" } else { "round_trip:differs_outside_hypothesis" });
-			if simple && !same {
-				let what = "contract(extend(M)) differs from M although all names in the namespace are simple";
-				r.violation(what.into(), replay(what, m, name, &format!("extended:\n{}contracted again:\n{}", show_mappings(e), show_answer(back))));
-			}
-			r.case(stream, format!("CRound {} {} (Ok {})", g_mappings(m), gstr(name), gbool(same)));
-			r.case(stream, format!("CContract {} {} {}", g_mappings(e), gstr(name), gres(back.as_ref().map(g_mappings))));
+			let in_domain = ns.map_or(false, |ns| ns != 0);
+			if in_domain {
+				r.count(if same { "round_trip:identity" } else if simple { "round_trip:DIFFERS_on_simple_names" } else { "round_trip:differs_outside_hypothesis" });
+				if simple && !same {
+					let what = "contract(extend(M)) differs from M although all names in the (non-first) namespace are simple";
+					r.violation(what.into(), replay(what, m, name, &format!("extended:\n{}contracted again:\n{}", show_mappings(e), show_answer(back))));
+				}
+			} else { r.count("round_trip:first_namespace_no_classes"); }
+			conext_col = match (back, ns) { (None, _) => Some(None), (Some(g), Some(ns)) => column_of(m, ns, g).map(Some), (Some(_), None) => None };
+			if full || conext_col.is_none() { r.case(stream, format!("CContract {} {} {}", g_mappings(e), gstr(name), gres(back.as_ref().map(g_mappings)))); }
 		}
-		(Ok(None), _) => r.case(stream, format!("CRound {} {} Err", g_mappings(m), gstr(name))),
+		(Ok(None), _) => conext_col = Some(None),
 		_ => {}
 	}
+	if let (Some(a), Some(b), Some(c)) = (&ext_col, &con_col, &conext_col) {
+		let g = |x: &Option<Vec<Option<S>>>| gres(x.as_ref().map(|c| g_col(c)));
+		r.case(stream, format!("CRun {} {} {} {} {} {} {}", g_mappings(m), gstr(name), g(a), g(b), g(c), gbool(simple), gbool(wellformed)));
+	} else { r.count("compact_form_not_applicable"); }
 	// strings for the split / join cases
 	if seen.strings.len() < 4000 {
 		for c in &m.classes { for o in &c.names { if let Some(s) = o { seen.strings.push(s.clone()); } } }
@@ -390,9 +417,13 @@ fn fixture() -> MMappings {
 
 pub fn run(ctx: &Ctx) -> anyhow::Result<Report> {
 	let mut r = Report::new("C11", "C11.Run");
+	r.shard_size = 120;
 	let mut rng = Rng::new(ctx.seed);
 	let mut seen = Seen::default();
 	r.rule = "Mapping sets with 1..5 namespaces (mostly 2..4), target namespace at every index (non-first for the valid streams), source names forming forests of $-nested classes of depth 0..4 (deeper in the exhaustive chain), outer classes in packages, absent names in every non-first namespace, with and without members/comments, classes in shuffled insertion order. Streams: exhaustive (every sub-chain of A, A$B, .. A$B$C$D$E x every assignment of {absent, simple, package+dollar name} to the second namespace), ok (all hypotheses), broken (an outer class removed or unnamed), nonsimple (simple_names violated), weird-src (source names with misplaced $ and /), ns0 (first namespace), unknown-ns / duplicate namespace names, n1 (one namespace), mapmodel (shared generator, names with packages), fixture (the repository's test). Oracle on the implementation: independent iterative reference extension and contraction, failure iff the reference fails, contract(extend(M)) == M whenever simple_names holds, IndexMap keys still in sync. An input is non-trivial when at least one class with a nested source name has a name in the target namespace; distinct by (namespace, canonical Gallina text).".into();
+
+	r.notes.push("contract_inner_class_names on the FIRST namespace used to rewrite the node names and leave the IndexMap keys stale (found by the key-sync oracle of this harness on the repository's own fixture); repaired by /repo commit 4d8ec0a (`fix: contract_inner_class_names refuses the first namespace`), the model follows the repaired code; the ns0 stream re-checks it on every run".into());
+	r.notes.push("correspondence cases are sent in compact form (CRun): the harness verifies cell by cell that the implementation's result is the input with only the chosen namespace column of the class rows replaced, sends that column, and Coq rebuilds the full mapping set and compares it in full with the model's result; every 8th-10th input and every input where that verification fails is sent in full (CExtend/CContract)".into());
 
 	// 0. the repository's fixture
 	let fx = fixture();
@@ -421,12 +452,12 @@ pub fn run(ctx: &Ctx) -> anyhow::Result<Report> {
 	r.count_n("exhaustive_chain_inputs", total as u64);
 
 	// 2. random streams
-	let n_ok = if ctx.thorough { 2500 } else { 260 };
+	let n_ok = if ctx.thorough { 1300 } else { 260 };
 	for i in 0..n_ok {
 		let (cfg, target) = pick_cfg(&mut rng, ctx.thorough);
 		let m = gen_ok(&mut rng, &cfg, target);
 		let name = m.ns[target].clone();
-		through(&mut r, &mut seen, "ok", &m, &name, i % 4 == 0);
+		through(&mut r, &mut seen, "ok", &m, &name, i % 10 == 0);
 		// hypothesis-violating variants of the same input
 		let mut b = m.clone();
 		if let Some(tag) = break_chain(&mut rng, &mut b, target) { r.count(&format!("broken:{tag}")); through(&mut r, &mut seen, "broken", &b, &name, false); }
@@ -444,7 +475,7 @@ pub fn run(ctx: &Ctx) -> anyhow::Result<Report> {
 		}
 	}
 	// 3. weird source names
-	for _ in 0..(if ctx.thorough { 600 } else { 90 }) {
+	for _ in 0..(if ctx.thorough { 400 } else { 90 }) {
 		let (cfg, target) = pick_cfg(&mut rng, ctx.thorough);
 		let mut m = gen_ok(&mut rng, &cfg, target);
 		for _ in 0..rng.range(1, 4) {
@@ -456,7 +487,7 @@ pub fn run(ctx: &Ctx) -> anyhow::Result<Report> {
 			m.classes.insert(at, MClass { names, doc: None, fields: vec![], methods: vec![] });
 		}
 		let name = m.ns[target].clone();
-		through(&mut r, &mut seen, "weird-src", &m, &name, true);
+		through(&mut r, &mut seen, "weird-src", &m, &name, rng.chance(1, 6));
 	}
 	// 4. one namespace; five namespaces
 	for _ in 0..(if ctx.thorough { 60 } else { 12 }) {
@@ -469,13 +500,14 @@ pub fn run(ctx: &Ctx) -> anyhow::Result<Report> {
 		through(&mut r, &mut seen, "n5", &m, &m.ns[t].clone(), false);
 	}
 	// 5. the shared generator (members, comments, names with packages: usually outside simple_names)
-	for _ in 0..(if ctx.thorough { 800 } else { 100 }) {
+	for _ in 0..(if ctx.thorough { 400 } else { 100 }) {
 		let n = rng.range(2, 4);
 		let mut g = GenCfg::new(n); g.absent_12 = *rng.pick(&[0, 1, 4][..]); g.max_classes = 7;
 		let m = gen_mappings(&mut rng, &g);
 		let m = if rng.chance(1, 2) { shuffled(&mut rng, &m) } else { m };
 		let t = rng.below(n);
-		through(&mut r, &mut seen, "mapmodel", &m, &m.ns[t].clone(), rng.chance(1, 3));
+		let full = rng.chance(1, 8);
+		through(&mut r, &mut seen, "mapmodel", &m, &m.ns[t].clone(), full);
 	}
 	// 6. split / join on the names that occurred
 	seen.strings.sort(); seen.strings.dedup();
